@@ -225,5 +225,7 @@ DiagnosticsOfCurrentText ==
 ClearedOnClose == \A u \in URIs : (~docs[u].open /\ diag[u].have) => diag[u].lines = <<>>
 
 \* nothing but the exit notification stops the server
+\* (the driver also sends RUNS of malformed frames - every kind 2 to 64 times in a row, and all kinds in rotation -
+\* followed by a change that must be applied and a request that must be answered: being alive does not wear out)
 AlwaysAlive == (phase = "exited") => (hist # <<>> /\ hist[Len(hist)].m = "exit")
 =============================================================================
